@@ -723,7 +723,7 @@ static void p3_run(uint64_t idx, vh_rng_t * rng) {
     vh_buf_adds(&m, "ROUT:PATH ("); vh_buf_add(&m, a.p, a.len); vh_buf_adds(&m, "),("); vh_buf_add(&m, b.p, b.len); vh_buf_adds(&m, ")\n");
     vh_case_desc("two %s lists in one command, decoded in lockstep: %s", P3.chan ? "channel" : "numeric", vh_esc(m.p, m.len > 200 ? 200 : m.len));
     v = vh_ctx_new(p3_cmds, m.len + 8, 8, 256); v->log_enabled = 0;
-    vh_deliver(v, m.p, m.len, (int) ((idx >> 2) % 3));
+    vh_deliver(v, m.p, m.len, 1, (int) ((idx >> 2) % 3));
     vh_eval(2 * P3E);
     if (P3.called != 1) vh_violation("C19:two-lists-harness", "handler called %d times for %s", P3.called, vh_esc(m.p, m.len));
     else for (k = 0; k < 2; k++) for (i = 0; i < P3E; i++) {
